@@ -386,6 +386,7 @@ package yqlib
 //@   props C08 C10 C18 C11
 //@   requires n != nil
 //@   ensures result.MatchingNodes == results && result.DontAutoCreate == n.DontAutoCreate && result.datetimeLayout == n.datetimeLayout
+//@   ensures @variables-in-a-map-of-its-own result.Variables != nil && fresh(result.Variables)
 
 //@ func (*Context).SingleReadonlyChildContext
 //@   props C08 C11
@@ -1019,11 +1020,31 @@ package yqlib
 //@   at ChildContext#2: assert @result-in-a-child-of-the-pipes-own-scope {C01} arg1 == lastEvalOut
 //@   ensures @result-is-the-rhs-result {C01} implies(result1 == nil && expressionNode.LHS.Operation.OperationType != assignVariableOpType, result0.MatchingNodes == lastEvalOut && result0.DontAutoCreate == context.DontAutoCreate)
 
-// the "LHS as $x | RHS" form; not under contract yet (assumed)
+// the "LHS as $x | RHS" form: the binding is evaluated read-only, the body in the scope it was given
 //@ func variableLoop
-//@   trusted
+//@   props C08 C01
+//@   nosafety
+//@   requires d != nil && validCtx(context) && originalExp != nil
 //@   readonly-if context.DontAutoCreate
 //@   modifies lastEvalOut, prevEvalOut
+//@   at variableLoopSingleChild#1: assert @all-together {C01} arg1.MatchingNodes == context.MatchingNodes && arg1.DontAutoCreate == context.DontAutoCreate && arg2 == originalExp
+//@   at variableLoopSingleChild#2: assert @one-input-at-a-time {C01} len(arg1.MatchingNodes) == 1 && arg1.DontAutoCreate == context.DontAutoCreate && arg2 == originalExp
+//@   loop 1:
+//@     invariant nodeList(context.MatchingNodes)
+//@   loop 2:
+//@     invariant nodeList(context.MatchingNodes) && fresh(results)
+
+//@ func variableLoopSingleChild
+//@   props C08 C01
+//@   nosafety
+//@   requires d != nil && validCtx(context) && originalExp != nil
+//@   readonly-if context.DontAutoCreate
+//@   modifies lastEvalOut, prevEvalOut
+//@   at GetMatchingNodes#1: assert @the-bound-value-is-computed-read-only {C08} arg1.DontAutoCreate && arg1.MatchingNodes == context.MatchingNodes && arg2 == originalExp.LHS.LHS
+//@   at GetMatchingNodes#2: assert @the-body-keeps-the-mode-and-inputs-of-its-scope {C08,C01} arg1.DontAutoCreate == context.DontAutoCreate && arg1.MatchingNodes == context.MatchingNodes && arg2 == originalExp.RHS
+//@   at GetMatchingNodes#3: assert @no-binding-no-loop {C01} arg1.DontAutoCreate == context.DontAutoCreate && arg1.MatchingNodes == context.MatchingNodes && arg2 == originalExp.RHS
+//@   loop 1:
+//@     invariant validCtx(context) && fresh(results) && nodeList(lhs.MatchingNodes)
 
 //@ func unionOperator
 //@   props C01 C08 C11
